@@ -140,6 +140,26 @@ def gen(ctx, rng, n):
         if routine == "simpson" and rng.random() < 0.1:
             cases[-1]["n"] = rng.choice([2, 3, 5])         # shallow depth limits: the depth error path
             cases[-1]["mustok"] = False
+    # Gauss-Hermite on polynomials that only the last rules of its table (24-27 points) integrate exactly: degree 42-49, every
+    # even coefficient scaled by its Gaussian moment so that each term contributes O(1) and the two-consecutive-rules test is
+    # meaningful; and Gauss-Legendre on very short intervals far from the origin with integrands of size 10^2..10^3, where the
+    # tolerance handed to the rule loop (0.25 tol / half-length) is large against rounding only if it is scaled the right way
+    for k in range(max(6, n // 100)):
+        deg = rng.randint(42, 49)
+        co = []
+        for q in range(deg + 1):
+            mom = math.sqrt(math.pi)
+            for j in range(q - 1, 0, -2):
+                mom *= j / 2.0
+            co.append(c11.cz(rng.uniform(0.5, 2) * rng.choice([-1, 1]) / mom if q % 2 == 0 else rng.uniform(-1, 1) / mom, 0.0))
+        cases.append({"routine": "hermite", "cx": False, "a": fp(0.0), "b": fp(1.0), "tol": fp(10.0 ** (-rng.uniform(4, 6))), "n": 40,
+                      "budget": 2000000, "keep": 6000, "f": {"k": "poly", "c": co, "p": []}, "mustok": True, "work": False})
+    for k in range(max(6, n // 100)):
+        a = rng.uniform(3.0, 4.9)
+        b = a + rng.uniform(0.03, 0.08)
+        cases.append({"routine": "legendre", "cx": False, "a": fp(a), "b": fp(b), "tol": fp(10.0 ** (-rng.uniform(10, 11))), "n": 40,
+                      "budget": 2000000, "keep": 6000, "f": {"k": "exp", "c": [c11.cz(0.0)], "p": [fp(rng.uniform(1, 10)), fp(1.0)]},
+                      "mustok": True, "work": False})
     # tanh-sinh on several periods of a sine or on an asymmetric power: the coarse levels are far off and only the
     # level-to-level convergence heuristic decides when to stop (cheap runs, many of them)
     for k in range(n):
